@@ -331,6 +331,50 @@ def store_groups(inl: Inliner):
     return out
 
 
+def where_groups(fnode, inl):
+    """the dense spelling of a masked fill: X = torch.where(M0, E0, zeros); X = torch.where(M1, E1, X); ...  Each chain is a group with the partition obligation of a
+    zero-initialised store target (kind 'where'; its operands are evaluated densely by construction, so the gather clause does not apply).  A chain that starts from
+    a non-zero constant C (`torch.where(M0, E0, ones)`) has C as the member of the complement of M0."""
+    from .expr import subst
+    envs = {id(st): env for st, env in inl.log}
+    chains = {}
+    done = []
+    for st in fnode.body:
+        if not (isinstance(st, ast.Assign) and len(st.targets) == 1 and isinstance(st.targets[0], ast.Name)):
+            continue
+        v = st.value
+        x = st.targets[0].id
+        if not (isinstance(v, ast.Call) and dotted(v.func) == 'torch.where' and len(v.args) == 3):
+            if x in chains:
+                done.append((x, chains.pop(x)))           # the filled tensor is re-shaped / used from here on: the chain is complete
+            continue
+        env = envs.get(id(st), {})
+        m = subst(v.args[0], env)
+        f = formula(m)
+        if f is None:
+            chains.pop(x, None)
+            continue
+        d = v.args[2]
+        if isinstance(d, ast.Name) and d.id == x and x in chains:
+            chains[x][0].append((f, v.args[1], m, st))
+            continue
+        dd = subst(d, env)
+        while isinstance(dd, ast.BinOp) and isinstance(dd.op, (ast.Mult, ast.Div)) and isinstance(dd.left, ast.Constant):
+            dd = dd.right
+        if _is_zero(dd):
+            chains[x] = ([(f, v.args[1], m, st)], st)
+        elif isinstance(dd, ast.Constant) or (isinstance(dd, ast.Call) and (dotted(dd.func) or '').split('.')[-1] in ('ones_like', 'ones', 'full_like', 'full')):
+            chains[x] = ([(f, v.args[1], m, st), (('not', f), d, m, st)], st)
+        else:
+            chains.pop(x, None)
+    out = []
+    for x, (members, st) in done + list(chains.items()):
+        g = Group('where', x, members, st)
+        g.zero = True
+        out.append(g)
+    return out
+
+
 def analyse_function(fnode):
     """-> (groups, guards) for a straight-line function"""
     from .expr import inline_straight, returns_of
@@ -339,6 +383,7 @@ def analyse_function(fnode):
     for g, zero in store_groups(inl):
         g.zero = zero
         groups.append(g)
+    groups.extend(where_groups(fnode, inl))
     exprs = [v for k, v in inl.env.items() if isinstance(v, ast.AST)]
     for r in returns_of(fnode):
         if r.value is not None:
@@ -580,3 +625,88 @@ def context_defects(expr, guards):
 
 def _short(d):
     return d if len(d) < 60 else d[:57] + '...'
+
+
+# ---------------------------------------------------------------- SAFESUB: a sanitised copy reaches only the branch it was sanitised for
+
+def sanitised_leaks(fnode):
+    """[(subst stmt, name, where call, leaked name)]: `n = torch.where(M, x, <constant>)` replaces the items outside M by a harmless constant so that the closed form
+    selected by M can be evaluated everywhere.  In the complementary branch of a later `torch.where(M, A, B)` (B; or A under ~M) the name n - and everything
+    computed from it - IS that constant: a series in n written there is evaluated at the constant, not at the small value it was written for."""
+    from .core import dotted, src
+
+    def mask_of(e):
+        """(name, positive?) of `M` / `~M` / `M.logical_not()`"""
+        if isinstance(e, ast.Name):
+            return e.id, True
+        if isinstance(e, ast.UnaryOp) and isinstance(e.op, ast.Invert) and isinstance(e.operand, ast.Name):
+            return e.operand.id, False
+        if isinstance(e, ast.Call) and isinstance(e.func, ast.Attribute) and e.func.attr == 'logical_not' and isinstance(e.func.value, ast.Name):
+            return e.func.value.id, False
+        return None
+
+    def is_const(e):
+        if isinstance(e, ast.Constant):
+            return True
+        if isinstance(e, ast.Call) and (dotted(e.func) or '').split('.')[-1] in ('ones_like', 'zeros_like', 'full_like', 'tensor', 'ones', 'zeros', 'full'):
+            return True
+        return False
+    body = [n for n in ast.walk(fnode) if isinstance(n, ast.Assign)]
+    body.sort(key=lambda n: (n.lineno, n.col_offset))
+    out = []
+    for st in body:
+        v = st.value
+        if not (isinstance(v, ast.Call) and dotted(v.func) == 'torch.where' and len(v.args) == 3 and len(st.targets) == 1 and isinstance(st.targets[0], ast.Name)):
+            continue
+        m = mask_of(v.args[0])
+        if m is None:
+            continue
+        keep, const = (v.args[1], v.args[2]) if m[1] else (v.args[2], v.args[1])
+        if not is_const(const) or is_const(keep):
+            continue
+        n = st.targets[0].id
+        derived = {n}
+        for s2 in body:
+            if s2.lineno <= st.lineno:
+                continue
+            tg = [t.id for t in ast.walk(s2.targets[0]) if isinstance(t, ast.Name)] if len(s2.targets) == 1 else []
+            if isinstance(s2.targets[0], ast.Tuple) and isinstance(s2.value, ast.Tuple) and len(s2.targets[0].elts) == len(s2.value.elts):
+                for t, vv in zip(s2.targets[0].elts, s2.value.elts):
+                    if isinstance(t, ast.Name) and any(isinstance(x, ast.Name) and x.id in derived for x in ast.walk(vv)):
+                        derived.add(t.id)
+            elif any(isinstance(x, ast.Name) and x.id in derived for x in ast.walk(s2.value)):
+                # the where that merges the branches again is not itself "derived" for the purpose of later wheres
+                if not (isinstance(s2.value, ast.Call) and dotted(s2.value.func) == 'torch.where'):
+                    derived.update(tg)
+        for w in ast.walk(fnode):
+            if isinstance(w, ast.Call) and dotted(w.func) == 'torch.where' and len(w.args) == 3 and w is not v and w.lineno > st.lineno:
+                m2 = mask_of(w.args[0])
+                if m2 is None or m2[0] != m[0]:
+                    continue
+                other = w.args[2] if m2[1] else w.args[1]
+                leak = next((x.id for x in ast.walk(other) if isinstance(x, ast.Name) and x.id in derived), None)
+                if leak:
+                    out.append((st, n, w, leak))
+    return out
+
+
+def rule_safesub(repo, rid, modules):
+    from .core import RuleResult, Finding, AnalysisError, src
+    res = RuleResult(rid, 'a copy sanitised for one branch (`n = torch.where(M, x, constant)`) and everything computed from it is read only in the branch M selects: in '
+                     'the complementary branch of a later torch.where on the same mask it is the constant, not the value', floor=1)
+    k = 0
+    for m in modules:
+        for f in repo.module(m).functions.values():
+            k += 1
+            for st, n, w, leak in sanitised_leaks(f.node):
+                res.inst({'function': f.fq, 'sanitised': n, 'leak': leak}, (f.fq, n, leak))
+                res.add(Finding(rid, f, '`%s` replaces the items outside the mask by a constant; `%s` (computed from it) is then read in the complementary branch of `%s`: '
+                                'there the series is evaluated at the constant instead of the small value' % (src(st)[:70], leak, src(w)[:60]), node=st,
+                                construct='sanitised value in the other branch|' + leak))
+    res.inst({'functions scanned': k}, 'scan')
+    fx = [ast.parse(t).body[0] for t in (
+        "def f(x):\n    i = x > 1e-6\n    x = torch.where(i, x, torch.ones_like(x))\n    x2 = x * x\n    return torch.where(i, torch.sin(x) / x, 1 - x2 / 6)\n",
+        "def f(x):\n    i = x > 1e-6\n    x2 = x * x\n    xs = torch.where(i, x, torch.ones_like(x))\n    return torch.where(i, torch.sin(xs) / xs, 1 - x2 / 6)\n")]
+    if [len(sanitised_leaks(x)) for x in fx] != [1, 0]:
+        raise AnalysisError('%s: the sanitised-copy fixture is no longer recognised' % rid)
+    return res
